@@ -898,6 +898,38 @@ S2C_DEVIATIONS = [
 ]
 
 
+NASTY_KEYS = ["grpc-timeout", "grpc-encoding", "grpc-status", "grpc-message", ":path", ":authority", "content-type", "te", "user-agent",
+              "K-Upper", "", " ", "k with space", "k\u00e9", "x-bin", "grpctunnel-negotiate", "x-rpc-extra"]
+NASTY_VALS = ["", " ", "0", "-1", "1S", "S", "99999999999999999999H", "1e3S", "\u00e9\u00e8", "v" * 70000, "a,b", "\t", "on", "0x00"]
+
+
+def fam_hostile_mdfuzz(seed, n=40, dirs=("fwd", "rev")):
+    """raw tunnel client: new-stream frames whose request metadata is made of reserved, malformed and oversized keys and
+    values (several values per key, several such keys) in a conversation with a bystander: nothing may crash or wedge,
+    the RPC is served or refused at stream level, the bystander completes"""
+    rng = random.Random(seed)
+    out = []
+    for i in range(n):
+        d = dirs[i % len(dirs)]
+        md = {}
+        for _ in range(rng.randint(1, 4)):
+            md[rng.choice(NASTY_KEYS)] = [rng.choice(NASTY_VALS) for _ in range(rng.randint(0, 3))]
+        shape = rng.choice(["unary", "bidi", "cstream", "sstream"])
+        mode = rng.choice(["neg", "neg", "legacy"])
+        rev = 1 if mode == "neg" else 0
+        frames = [new_frame(1, 1, shape=shape, rev=rev, md=md), new_frame(2, 2, shape="unary", rev=rev)] + data_frames(1, 1, "c", 0, 12) \
+            + [raw("half", 1)] + data_frames(2, 2, "c", 0, 9) + [raw("half", 2)]
+        steps = copy.deepcopy(PREFIX)
+        for f in frames:
+            steps += [copy.deepcopy(f), dl("c2s")]
+        h1 = {"unary": [op("recv"), op("ret", code=0, n=4)], "cstream": [op("recv"), op("recv"), op("ret", code=0, n=4)],
+              "sstream": [op("recv"), op("send", n=3), op("ret", code=0)], "bidi": [op("recv"), op("recv"), op("send", n=3), op("ret", code=0)]}[shape]
+        out.append({"name": "hostile-srv-%s-%s-mdfuzz-%d" % (d, mode, i), "cfg": {"dir": d, "rawCli": mode}, "steps": steps,
+                    "rpcs": [{"rpc": 1, "s": {"m": h1}}, {"rpc": 2, "s": {"m": [op("recv"), op("ret", code=0, n=4)]}}],
+                    "policy": {"kind": "eager", "seed": seed, "max": 200}, "meta": {"family": "hostile-srv", "deviation": "mdfuzz"}})
+    return out
+
+
 def fam_hostile_cli(seed, n=0, dirs=("fwd", "rev")):
     """raw tunnel server against the real tunnel client: deviations at every
     position of a valid server conversation (settings, then responses for a bidi
